@@ -259,6 +259,108 @@ func rootFn(fn *ssa.Function) *ssa.Function {
 	return fn
 }
 
+
+// actionOnEdge: the action nodes happen only on the given edges, and from each such edge the action cannot be
+// skipped before the iteration ends (a Next instruction) or the function returns.
+func actionOnEdge(g *FG, edges []Edge, action []bool) bool {
+	if len(edges) == 0 || !anyOf(action) {
+		return false
+	}
+	for _, n := range members(action) {
+		if !g.OnlyVia(edges, n) {
+			return false
+		}
+	}
+	rr := reachFromEdges(g, edges, action)
+	for i, in := range g.ins {
+		if !rr[i] {
+			continue
+		}
+		switch in.(type) {
+		case *ssa.Next, *ssa.Return:
+			return false
+		}
+	}
+	// index-based loops: the back edge goes through the phi of the loop counter; treat any If on a "<len(" bound as end of iteration
+	for i, in := range g.ins {
+		if iff, ok := in.(*ssa.If); ok && rr[i] {
+			if b, ok := iff.Cond.(*ssa.BinOp); ok && b.Op == token.LSS {
+				if _, isLen := isBuiltinCall(b.Y, "len"); isLen {
+					return false
+				}
+			}
+		}
+	}
+	return true
+}
+
+// lookupEdges: edges on which `_, ok := m[k]` found (present) / did not find (absent) the key, for maps whose path has the suffix.
+func (w *World) lookupEdges(g *FG, mapSuffix string) (present, absent []Edge) {
+	return g.CondEdges(func(v ssa.Value) (bool, bool) {
+		if e, ok := v.(*ssa.Extract); ok && e.Index == 1 {
+			if lk, ok := e.Tuple.(*ssa.Lookup); ok && strings.HasSuffix(w.pathOf(lk.X), mapSuffix) {
+				return true, true
+			}
+		}
+		return false, false
+	})
+}
+
+// callEdges: edges on which a boolean call whose rendering has the prefix returned true / false.
+func (w *World) callEdges(g *FG, prefix string) (tr, fa []Edge) {
+	return g.CondEdges(func(v ssa.Value) (bool, bool) {
+		return true, strings.HasPrefix(w.pathOf(v), prefix)
+	})
+}
+
+// slotAndBump: a fill loop `s[i] = x; i++` writes every element to its own slot.
+func slotAndBump(w *World, fn *ssa.Function, valPrefix string) bool {
+	g := w.FG(fn)
+	slot := make([]bool, len(g.ins))
+	bump := make([]bool, len(g.ins))
+	var idx ssa.Value
+	for i, in := range g.ins {
+		if st, ok := in.(*ssa.Store); ok {
+			if ia, isIA := st.Addr.(*ssa.IndexAddr); isIA && strings.HasPrefix(w.pathOf(st.Val), valPrefix) {
+				slot[i] = true
+				idx = ia.Index
+			}
+		}
+	}
+	if idx == nil {
+		return false
+	}
+	ph, ok := idx.(*ssa.Phi)
+	if !ok {
+		return false
+	}
+	init, step := false, false
+	for _, e := range ph.Edges {
+		if constStr(e) == "0" {
+			init = true
+		}
+		if b, isB := e.(*ssa.BinOp); isB && b.Op == token.ADD && b.X == ssa.Value(ph) && constStr(b.Y) == "1" {
+			step = true
+			if in, isI := e.(ssa.Instruction); isI {
+				bump[g.idx[in]] = true
+			}
+		}
+	}
+	if !init || !step {
+		return false
+	}
+	for _, sn := range members(slot) {
+		// the increment follows the store within the iteration
+		rr := g.reach(g.succ[sn], bump, nil)
+		for i, in := range g.ins {
+			if _, isNext := in.(*ssa.Next); isNext && rr[i] {
+				return false
+			}
+		}
+	}
+	return true
+}
+
 // ---------------------------------------------------------------------------
 // C18 — membership view
 // ---------------------------------------------------------------------------
@@ -334,7 +436,20 @@ func checkC18(w *World, r *Report) {
 				ok = true
 			}
 		}
-		r.Check(ok, "C18.R2", fname(a.join)+":kinds", "the join handler records every kind of the new member", w.fnPos(a.join), "HasKind stays false for a kind that only the new member offers")
+		if ok {
+			upd := make([]bool, len(g.ins))
+			for i, in := range g.ins {
+				if mu, isM := in.(*ssa.MapUpdate); isM && w.pathOf(mu.Map) == "P0.kinds" {
+					upd[i] = true
+				}
+			}
+			present, absent := w.lookupEdges(g, "P0.kinds")
+			if len(present) > 0 {
+				// guarded form: the update must sit on the absent edge
+				ok = actionOnEdge(g, absent, upd)
+			}
+		}
+		r.Check(ok, "C18.R2", fname(a.join)+":kinds", "the join handler records every kind of the new member (on the edge where it is not yet known)", w.fnPos(a.join), "HasKind stays false for a kind that only the new member offers")
 		// leave rebuilds kinds after the removal
 		if a.rebuild == nil {
 			r.Fail("C18.R2", fname(a.leave)+":rebuild-after-remove", "kinds are rebuilt after the member was removed", w.fnPos(a.leave),
@@ -389,6 +504,40 @@ func checkC18(w *World, r *Report) {
 					}
 				}
 				readd = upd && allTrue
+			}
+		}
+		if clr && readd {
+			C := make([]bool, len(rg.ins))
+			for i, in := range rg.ins {
+				if c := callOf(in); c != nil {
+					if f := c.StaticCallee(); f != nil && strings.Contains(f.String(), "maps.Clear") {
+						C[i] = true
+					}
+					if bi, isB := c.Value.(*ssa.Builtin); isB && bi.Name() == "clear" {
+						C[i] = true
+					}
+				}
+			}
+			for _, ci := range w.callsIn(a.rebuild, EvCall("ForEach", fe)) {
+				if !rg.Before(C, rg.idx[ci.(ssa.Instruction)]) {
+					readd = false
+				}
+			}
+			// the closure adds on the absent edge
+			for _, ci := range w.callsIn(a.rebuild, EvCall("ForEach", fe)) {
+				if mc, isM := ci.Common().Args[1].(*ssa.MakeClosure); isM {
+					cg := w.FG(mc.Fn.(*ssa.Function))
+					upd := make([]bool, len(cg.ins))
+					for i, in := range cg.ins {
+						if _, isU := in.(*ssa.MapUpdate); isU {
+							upd[i] = true
+						}
+					}
+					present, absent := w.lookupEdges(cg, ".kinds")
+					if len(present) > 0 && !actionOnEdge(cg, absent, upd) {
+						readd = false
+					}
+				}
 			}
 		}
 		r.Check(clr && readd, "C18.R2", fname(a.rebuild)+":clear-and-readd", "rebuild clears kinds and re-adds the kinds of every remaining member", w.fnPos(a.rebuild), "kinds is not recomputed from the whole remaining view")
@@ -535,6 +684,9 @@ r3:
 			if ok, _ := w.returnsOnly(sl, "makeslice(len(P0.members))"); !ok {
 				okS = false
 			}
+		}
+		if okS {
+			okS = slotAndBump(w, sl, "next(range(P0.members))#2")
 		}
 		r.Check(okS, "C18.R4", "MemberSet.Slice", "Slice returns every member of the set", w.fnPos(sl), "Slice does not list exactly the members map")
 	}
@@ -735,6 +887,45 @@ func checkC19(w *World, r *Report) {
 				}
 			}
 		}
+		if fbk := w.Method("cluster", "MemberSet", "FilterByKind"); fbk != nil {
+			fg := w.FG(fbk)
+			has, _ := w.callEdges(fg, "call:(*cluster.Member).HasKind(next(range(P0.members))#2,P1)")
+			app := make([]bool, len(fg.ins))
+			okF := false
+			for i, in := range fg.ins {
+				if c, isC := in.(*ssa.Call); isC {
+					if _, isA := isBuiltinCall(c, "append"); isA {
+						vals := w.appended(c)
+						if len(vals) == 1 && strings.HasPrefix(w.pathOf(vals[0]), "next(range(P0.members))#2") {
+							app[i] = true
+							okF = true
+						}
+					}
+				}
+			}
+			r.Check(okF && actionOnEdge(fg, has, app), "C19.R1", "MemberSet.FilterByKind", "FilterByKind returns exactly the members whose HasKind(kind) is true", w.fnPos(fbk),
+				"the candidates for an activation are not the members that registered the kind")
+			hk := w.Method("cluster", "Member", "HasKind")
+			okH := false
+			if hk != nil {
+				hg := w.FG(hk)
+				eq, _ := hg.CondEdges(func(v ssa.Value) (bool, bool) {
+					b, isB := v.(*ssa.BinOp)
+					return true, isB && b.Op == token.EQL && strings.HasPrefix(w.pathOf(b.X), "P0.Kinds[") && w.pathOf(b.Y) == "P1"
+				})
+				okH = len(eq) > 0
+				for _, x := range hg.returns {
+					p := w.pathOf(hg.ins[x].(*ssa.Return).Results[0])
+					if p == "K:true" && !hg.OnlyVia(eq, x) {
+						okH = false
+					}
+					if p == "K:false" && hg.OnlyVia(eq, x) {
+						okH = false
+					}
+				}
+			}
+			r.Check(okH, "C19.R1", "Member.HasKind", "Member.HasKind(k) is true exactly when k is among the member's Kinds", w.fnPos(hk), "HasKind answers true for a kind the member did not register (or false for one it did)")
+		}
 		r.Check(okLoc, "C19.R1", fname(a.activate)+":local-test", "the chosen member is activated locally exactly when its Host is the engine's own address", site,
 			"locality is decided against something else than the engine address: with a caller-supplied engine the agent sends the request to itself, times out and returns nil although an actor may be spawned")
 		r.Check(okP, "C19.R1", fname(a.activate)+":placement", "the ActivationRequest{kind,id} goes to the agent of the member returned by the select function over FilterByKind(kind)", site,
@@ -765,6 +956,21 @@ func checkC19(w *World, r *Report) {
 						okR = true
 					}
 				}
+			}
+		}
+		if okA {
+			ag := w.FG(a.addAct)
+			upd := make([]bool, len(ag.ins))
+			for i, in := range ag.ins {
+				if _, isU := in.(*ssa.MapUpdate); isU {
+					upd[i] = true
+				}
+			}
+			present, absent := w.lookupEdges(ag, "P0.activated")
+			if len(present) > 0 {
+				okA = actionOnEdge(ag, absent, upd)
+			} else {
+				okA = ag.AfterEntry(upd)
 			}
 		}
 		r.Check(okA, "C19.R2", fname(a.addAct)+":key", "addActivated records the PID under pid.ID", w.fnPos(a.addAct), "activations are not recorded under the PID's id")
@@ -996,6 +1202,26 @@ func checkC19(w *World, r *Report) {
 				if c := callOf(in); c != nil && c.Value == ssa.Value(fe.Params[1]) && strings.HasPrefix(w.pathOf(c.Args[0]), "next(range(P0.members))#2") {
 					okF = true
 				}
+			}
+			if okF {
+				cont, stop := w.callEdges(fg, "call:dyn[P1](next(range(P0.members))#2)")
+				okF = len(cont) > 0
+				var nextN []bool = make([]bool, len(fg.ins))
+				for i, in := range fg.ins {
+					if _, isN := in.(*ssa.Next); isN {
+						nextN[i] = true
+					}
+				}
+				for _, e := range cont {
+					// a true result goes back to the iterator, not to the exit
+					rr := fg.reach([]int{e.to}, nextN, nil)
+					for _, x := range fg.returns {
+						if rr[x] {
+							okF = false
+						}
+					}
+				}
+				_ = stop
 			}
 			r.Check(ok && okF, "C19.R4", fname(a.bcast)+":every-member", "bcast sends the message once to the agent PID of every member (the callback never stops the iteration)", w.fnPos(a.bcast),
 				"a notification does not reach all members: their activation tables diverge")
@@ -1347,6 +1573,11 @@ func checkC20(w *World, r *Report) {
 				okAdd = true
 			}
 		}
+		for _, in := range ag.ins {
+			if _, isGo := in.(*ssa.Go); isGo {
+				okAdd = false
+			}
+		}
 		// every listed member is visited: the loop is left only through its bound, and an unknown member is always added
 		{
 			bound, _ := ag.CondEdges(func(v ssa.Value) (bool, bool) {
@@ -1393,6 +1624,54 @@ func checkC20(w *World, r *Report) {
 				okRem = true
 			}
 		}
+		if okRem {
+			contains, _ := w.callEdges(rg, "call:(*cluster.MemberSet).Contains(P0.members,P1)")
+			R := w.Nodes(rg, Ev{Name: "rm", M: EvCall("Remove", msRem).M, Shallow: true}, false)
+			if len(contains) > 0 {
+				okRem = actionOnEdge(rg, contains, R)
+			} else {
+				okRem = rg.AfterEntry(R)
+			}
+			for _, in := range rg.ins {
+				if _, isGo := in.(*ssa.Go); isGo {
+					okRem = false
+				}
+			}
+		}
+		if gbh := w.Method("cluster", "MemberSet", "GetByHost"); gbh != nil {
+			hg := w.FG(gbh)
+			okG := false
+			for _, x := range hg.returns {
+				v := hg.ins[x].(*ssa.Return).Results[0]
+				var leaves []ssa.Value
+				phiLeaves(v, map[ssa.Value]bool{}, &leaves)
+				for _, l := range leaves {
+					if strings.HasPrefix(w.pathOf(l), "next(range(P0.members))#2") {
+						// the member enters the result only on the edge where its Host equals the argument
+						if ph, isPhi := v.(*ssa.Phi); isPhi {
+							for i, e := range ph.Edges {
+								if e == l {
+									pred := ph.Block().Preds[i]
+									if iff, isIf := pred.Instrs[len(pred.Instrs)-1].(*ssa.If); isIf {
+										p := w.pathOf(iff.Cond)
+										if (p == "(next(range(P0.members))#2.Host==P1)" && pred.Succs[0] == ph.Block()) || (p == "(next(range(P0.members))#2.Host!=P1)" && pred.Succs[1] == ph.Block()) {
+											okG = true
+										}
+									}
+									for _, pp := range pred.Preds {
+										if iff, isIf := pp.Instrs[len(pp.Instrs)-1].(*ssa.If); isIf && w.pathOf(iff.Cond) == "(next(range(P0.members))#2.Host==P1)" && pp.Succs[0] == pred {
+											okG = true
+										}
+									}
+								}
+							}
+						}
+					}
+				}
+			}
+			r.Check(okG, "C20.R3", "MemberSet.GetByHost", "GetByHost returns a member whose Host equals the given address (nil if none)", w.fnPos(gbh),
+				"the member looked up for an unreachable address is not the one with that address: another member is removed")
+		}
 		r.Check(okRem, "C20.R3", fname(remM)+":removes-that-member", "exactly the given member is removed", w.fnPos(remM), "another member (or none) is removed")
 		// memberLeave case
 		ml := w.caseEdges(g, "cluster.memberLeave")
@@ -1438,6 +1717,25 @@ func checkC20(w *World, r *Report) {
 			for _, ci := range w.callsIn(fn, EvCall("Subscribe", w.Method("actor", "Engine", "Subscribe"))) {
 				if strings.HasSuffix(w.pathOf(ci.Common().Args[1]), ".eventSubPID") {
 					okSub = true
+				}
+			}
+		}
+		if okSub {
+			okSub = false
+			for _, fn := range w.MethodsOf("cluster", "SelfManaged") {
+				g2 := w.FG(fn)
+				asg := make([]bool, len(g2.ins))
+				for i, in := range g2.ins {
+					if st, isSt := in.(*ssa.Store); isSt {
+						if fa, isFA := st.Addr.(*ssa.FieldAddr); isFA && isFieldOf(fa, smT, "eventSubPID") && strings.Contains(w.pathOf(st.Val), "SpawnChildFunc(") && strings.Contains(w.pathOf(st.Val), fname(evChild)) {
+							asg[i] = true
+						}
+					}
+				}
+				for _, ci := range w.callsIn(fn, EvCall("Subscribe", w.Method("actor", "Engine", "Subscribe"))) {
+					if anyOf(asg) && g2.Before(asg, g2.idx[ci.(ssa.Instruction)]) {
+						okSub = true
+					}
 				}
 			}
 		}
